@@ -206,3 +206,39 @@ Theorem C01_the_oracle_accepts_the_model_on_archetype_probes : forall cfg d qs s
   exists obs, step cfg d qs st (OProbe (LArch b) KEnt TAny (RIssued i)) = Some (st, obs) /\
               spec_step cfg d qs sst (OProbe (LArch b) KEnt TAny (RIssued i)) obs = inr sst.
 Proof. exact probe_arch_oracle_accepts. Qed.
+
+(* ---------------------------------------------------------------- the model refines the oracle: whole histories *)
+From Gecs Require Import OracleSim.
+
+(** For every declaration with distinct 8-bit archetype ids, every capacity list the library accepts and
+    EVERY sequence of creations (any archetype, with growth and up to the capacity-limit panic),
+    destructions through an archetype with any issued handle (live, stale, of another archetype, or an
+    out-of-range reference; including the generation-overflow panic) and probes at world and archetype
+    level with any issued handle, without wrapping_version: the specification oracle - the executable
+    reading of C01 (accepted iff alive, designates itself), C02 (own latest values, destroy hands back the
+    row), C03/C14 (ids), C08 (no handle twice) and C12 (limit) that decides these properties on
+    implementation traces - accepts the whole run of the model.  The proof is a simulation: the relation
+    [Rel] (the oracle's live list of every archetype is exactly the storage's set of rows, its issue
+    table is the model's, the ghost history [Hist] bounds every issued handle) is kept by every step
+    ([rel_step]).  So on this language the model satisfies the oracle's reading of these properties for
+    all histories, and the oracle raises no alarm on code that behaves like the model. *)
+Theorem C01_the_model_refines_the_oracle_on_the_core_language : forall cfg d qs caps w ops,
+  wrapping cfg = false -> wf_decl d -> NoDup (da_id <$> wd_archs d) ->
+  length caps = length (wd_archs d) -> new_world (wd_archs d) caps = Ok w tt ->
+  forallb (l0_op d) ops = true ->
+  spec_check cfg d qs (ONew caps :: ops) (run cfg d qs (ONew caps :: ops)) = None.
+Proof. exact core_language_refines_the_oracle. Qed.
+
+(** Non-vacuity: the history of C01_history_instance above is in the core language once its world-level
+    destroy and its ecs_iter_destroy! are replaced by archetype-level destroys. *)
+Definition c01_core_ops : list op :=
+  [OCreate 0 1%N; OCreate 0 2%N; ODestroy (LArch 0) KEnt TAny (RIssued 0); OProbe LWorld KEnt TAny (RIssued 0);
+   OCreate 0 3%N; OProbe (LArch 0) KEnt TAny (RIssued 2); ODestroy (LArch 1) KEnt TAny (RIssued 2);
+   ODestroy (LArch 0) KEnt TAny (RIssued 2); OCreate 1 4%N; OProbe LWorld KEnt TAny (RIssued 3); OProbe (LArch 0) KEnt TAny (RIssued 3);
+   ODestroy (LArch 0) KEnt TAny (RIssued 9)].
+Example C01_core_language_instance :
+  forallb (l0_op c01_decl) c01_core_ops = true /\
+  spec_check (Config false true true) c01_decl [] (ONew [2; 2; 2; 2] :: c01_core_ops)
+             (run (Config false true true) c01_decl [] (ONew [2; 2; 2; 2] :: c01_core_ops)) = None /\
+  nth 4 (run (Config false true true) c01_decl [] (ONew [2; 2; 2; 2] :: c01_core_ops)) [] = [0; 0; 0; 0]%N.
+Proof. vm_compute. repeat split; reflexivity. Qed.
